@@ -338,6 +338,20 @@ struct InnerCase {
 	base: Vec<u8>,
 }
 
+/// A variable-length field of a message kind: `set` makes it hold exactly `n` elements of `unit`
+/// encoded bytes each (false: the field's type cannot hold that many).
+struct SF<T> {
+	name: &'static str,
+	unit: usize,
+	set: fn(&mut T, &mut Gen, usize) -> bool,
+}
+/// The variable-length fields of a message kind (size family; classes from spec/Wire.tla)
+trait HasSized: Sized {
+	fn sized() -> Vec<SF<Self>> {
+		Vec::new()
+	}
+}
+
 trait Kind {
 	fn name(&self) -> &'static str;
 	fn tlv(&self) -> bool;
@@ -358,6 +372,10 @@ trait Inst {
 	fn observe(&self, bytes: &[u8], expect: &Expect) -> Obs;
 	fn observe_wire(&self, bytes: &[u8], expect: &Expect) -> Obs;
 	fn inner_cases(&self, g: &mut Gen) -> Vec<InnerCase>;
+	/// (name, unit) of the kind's variable-length fields
+	fn sized_fields(&self) -> Vec<(&'static str, usize)>;
+	/// a copy of this value whose field `fi` holds `n` elements
+	fn with_size(&self, fi: usize, n: usize, g: &mut Gen) -> Option<Box<dyn Inst>>;
 }
 
 struct InstT<T: 'static> {
@@ -422,9 +440,21 @@ impl<T: Writeable + LengthReadable + PartialEq + Debug + Clone + Type + 'static>
 	}
 }
 
-impl<T: Writeable + LengthReadable + PartialEq + Debug + Clone + Type + 'static> Inst for InstT<T> {
+impl<T: Writeable + LengthReadable + PartialEq + Debug + Clone + Type + HasSized + 'static> Inst for InstT<T> {
 	fn type_id(&self) -> u16 {
 		self.full.type_id()
+	}
+	fn sized_fields(&self) -> Vec<(&'static str, usize)> {
+		T::sized().iter().map(|f| (f.name, f.unit)).collect()
+	}
+	fn with_size(&self, fi: usize, n: usize, g: &mut Gen) -> Option<Box<dyn Inst>> {
+		let fs = T::sized();
+		let mut v = self.full.clone();
+		if (fs[fi].set)(&mut v, g, n) {
+			Some(Box::new(InstT { def: self.def, full: v }))
+		} else {
+			None
+		}
 	}
 	fn enc(&self, mask: u32) -> Vec<u8> {
 		self.value(mask).encode()
@@ -481,7 +511,7 @@ impl<T: Writeable + LengthReadable + PartialEq + Debug + Clone + Type + 'static>
 	}
 }
 
-impl<T: Writeable + LengthReadable + PartialEq + Debug + Clone + Type + 'static> Kind for &'static Def<T> {
+impl<T: Writeable + LengthReadable + PartialEq + Debug + Clone + Type + HasSized + 'static> Kind for &'static Def<T> {
 	fn name(&self) -> &'static str {
 		self.name
 	}
@@ -517,7 +547,7 @@ impl<T: Writeable + LengthReadable + PartialEq + Debug + Clone + Type + 'static>
 	}
 }
 
-fn kind<T: Writeable + LengthReadable + PartialEq + Debug + Clone + Type + 'static>(d: Def<T>) -> Box<dyn Kind> {
+fn kind<T: Writeable + LengthReadable + PartialEq + Debug + Clone + Type + HasSized + 'static>(d: Def<T>) -> Box<dyn Kind> {
 	let r: &'static Def<T> = Box::leak(Box::new(d));
 	Box::new(r)
 }
@@ -1183,6 +1213,153 @@ fn all_kinds() -> Vec<Box<dyn Kind>> {
 }
 
 // ------------------------------------------------------------------------------------------
+// the variable-length fields of every kind (length-prefixed or rest-of-message byte strings,
+// counted lists, values of known TLVs); built with the library's own types only
+
+/// n random bytes whose last byte is non-zero (feature flags compare modulo trailing zeros)
+fn bytes_nz(g: &mut Gen, n: usize) -> Vec<u8> {
+	let mut v = g.bytes(n);
+	if let Some(l) = v.last_mut() {
+		*l |= 1;
+	}
+	v
+}
+fn ascii(g: &mut Gen, n: usize) -> String {
+	(0..n).map(|_| g.rng.gen_range(0x20u8..0x7f) as char).collect()
+}
+/// a transaction whose consensus encoding has exactly n bytes
+fn tx_of_size(g: &mut Gen, n: usize) -> Option<Transaction> {
+	// version 4 + #in 1 + (outpoint 36 + script_sig len 1 + s + sequence 4) + #out 1 + (value 8 + varint(l) + l) + locktime 4
+	for s in 0..4usize {
+		if n < 59 + s + 1 {
+			return None;
+		}
+		let r = n - 59 - s;
+		let l = if (1..=253).contains(&r) { r - 1 } else if r >= 256 { r - 3 } else { continue };
+		let tx = Transaction {
+			version: transaction::Version(2),
+			lock_time: absolute::LockTime::from_consensus(g.rng.gen()),
+			input: vec![TxIn {
+				previous_output: OutPoint { txid: g.txid(), vout: g.rng.gen() },
+				script_sig: ScriptBuf::from_bytes(g.bytes(s)),
+				sequence: Sequence(g.rng.gen()),
+				witness: Witness::new(),
+			}],
+			output: vec![TxOut { value: Amount::from_sat(g.rng.gen_range(0..21_000_000 * 100_000_000u64)), script_pubkey: ScriptBuf::from_bytes(g.bytes(l)) }],
+		};
+		if bitcoin::consensus::serialize(&tx).len() == n {
+			return Some(tx);
+		}
+	}
+	None
+}
+fn msg_path(g: &mut Gen, payload: usize) -> (u64, BlindedMessagePath) {
+	let hops = vec![BlindedHop { blinded_node_id: g.pk(), encrypted_payload: g.bytes(payload) }];
+	(g.rng.gen::<u64>(), BlindedMessagePath::from_blinded_path(g.pk(), g.pk(), hops))
+}
+
+macro_rules! sized {
+	($t:ty) => { impl HasSized for $t {} };
+	($t:ty, $(($name:expr, $unit:expr, $set:expr)),+ $(,)?) => {
+		impl HasSized for $t {
+			fn sized() -> Vec<SF<Self>> {
+				vec![$(SF { name: $name, unit: $unit, set: $set }),+]
+			}
+		}
+	};
+}
+macro_rules! open_accept_sized {
+	($($t:ty),*) => { $(sized!($t,
+		("shutdown_scriptpubkey (TLV)", 1, |v, g, n| { v.common_fields.shutdown_scriptpubkey = Some(ScriptBuf::from_bytes(g.bytes(n))); true }),
+		("channel_type flags (TLV)", 1, |v, g, n| { v.common_fields.channel_type = Some(ChannelTypeFeatures::from_le_bytes(bytes_nz(g, n))); true }),
+	);)* };
+}
+macro_rules! closing_sized {
+	($($t:ty),*) => { $(sized!($t,
+		("closer_scriptpubkey", 1, |v, g, n| { v.closer_scriptpubkey = ScriptBuf::from_bytes(g.bytes(n)); true }),
+		("closee_scriptpubkey", 1, |v, g, n| { v.closee_scriptpubkey = ScriptBuf::from_bytes(g.bytes(n)); true }),
+	);)* };
+}
+sized!(Init,
+	("features", 1, |v, g, n| { v.features = InitFeatures::from_le_bytes(bytes_nz(g, n)); true }),
+	("networks (TLV)", 32, |v, g, n| { v.networks = Some((0..n).map(|_| g.chain()).collect()); true }),
+	("remote_network_address hostname (TLV)", 1, |v, g, n| {
+		if n > 255 { return false; }
+		v.remote_network_address = Some(SocketAddress::Hostname { hostname: g.hostname(n), port: g.rng.gen() });
+		true
+	}),
+);
+sized!(ErrorMessage, ("data", 1, |v, g, n| { v.data = ascii(g, n); true }));
+sized!(WarningMessage, ("data", 1, |v, g, n| { v.data = ascii(g, n); true }));
+sized!(Ping, ("byteslen", 1, |v, _, n| { if n > 0xffff { return false; } v.byteslen = n as u16; true }));
+sized!(Pong, ("byteslen", 1, |v, _, n| { if n > 0xffff { return false; } v.byteslen = n as u16; true }));
+sized!(PeerStorage, ("data", 1, |v, g, n| { v.data = g.bytes(n); true }));
+sized!(PeerStorageRetrieval, ("data", 1, |v, g, n| { v.data = g.bytes(n); true }));
+open_accept_sized!(OpenChannel, OpenChannelV2, AcceptChannel, AcceptChannelV2);
+sized!(TxAddInput, ("prevtx", 1, |v, g, n| {
+	if n == 0 { v.prevtx = None; return true; }
+	match tx_of_size(g, n) { Some(tx) => { v.prevtx = Some(tx); true }, None => false }
+}));
+sized!(TxAddOutput, ("script", 1, |v, g, n| { v.script = ScriptBuf::from_bytes(g.bytes(n)); true }));
+sized!(TxSignatures,
+	// u16 length + witness (element count 1 + element length 1 + 1 byte)
+	("witnesses", 5, |v, g, n| { v.witnesses = (0..n).map(|_| Witness::from_slice(&[g.bytes(1)])).collect(); true }),
+	("witness element", 1, |v, g, n| { v.witnesses = vec![Witness::from_slice(&[g.bytes(n)])]; true }),
+);
+sized!(TxAbort, ("data", 1, |v, g, n| { v.data = g.bytes(n); true }));
+sized!(Shutdown, ("scriptpubkey", 1, |v, g, n| { v.scriptpubkey = ScriptBuf::from_bytes(g.bytes(n)); true }));
+closing_sized!(ClosingComplete, ClosingSig);
+sized!(OnionMessage, ("onion_routing_packet.hop_data", 1, |v, g, n| { v.onion_routing_packet.hop_data = g.bytes(n); true }));
+sized!(UpdateFailHTLC, ("reason", 1, |v, g, n| {
+	// `reason` is crate-private: the value is the library's decoding of the same message with the
+	// reason replaced (channel_id . htlc_id . u16 len . reason . attribution TLV)
+	if n > 0xffff { return false; }
+	let old = v.encode();
+	let l = get_u16(&old, 40) as usize;
+	let mut b = old[..40].to_vec();
+	b.extend_from_slice(&(n as u16).to_be_bytes());
+	b.extend_from_slice(&g.bytes(n));
+	b.extend_from_slice(&old[42 + l..]);
+	match from_bytes::<UpdateFailHTLC>(&b) { Ok(x) => { *v = x; true }, Err(_) => false }
+}));
+sized!(CommitmentSigned, ("htlc_signatures", 64, |v, g, n| { v.htlc_signatures = (0..n).map(|_| g.sig()).collect(); true }));
+sized!(RevokeAndACK,
+	// u64 + introduction node 33 + blinding point 33 + hop count 1 + (node id 33 + u16 length + 0 bytes)
+	("release_htlc_message_paths (TLV)", 110, |v, g, n| { v.release_htlc_message_paths = (0..n).map(|_| msg_path(g, 0)).collect(); true }),
+	("release_htlc_message_paths[0] encrypted_payload (TLV)", 1, |v, g, n| { v.release_htlc_message_paths = vec![msg_path(g, n)]; true }),
+);
+sized!(ChannelAnnouncement,
+	("features", 1, |v, g, n| { v.contents.features = ChannelFeatures::from_le_bytes(bytes_nz(g, n)); true }),
+	("excess_data", 1, |v, g, n| { v.contents.excess_data = g.bytes(n); true }),
+);
+sized!(NodeAnnouncement,
+	("features", 1, |v, g, n| { v.contents.features = NodeFeatures::from_le_bytes(bytes_nz(g, n)); true }),
+	("addresses", 7, |v, g, n| { v.contents.addresses = (0..n).map(|_| g.addr(0, 1)).collect(); true }),
+	("addresses hostname", 1, |v, g, n| {
+		if n > 255 { return false; }
+		v.contents.addresses = vec![SocketAddress::Hostname { hostname: g.hostname(n), port: g.rng.gen() }];
+		true
+	}),
+	("excess_address_data", 1, |v, g, n| {
+		// data this version does not understand starts with an unknown address descriptor
+		let mut x = g.bytes(n);
+		if n > 0 { x[0] = if g.rng.gen_bool(0.3) { 0 } else { g.rng.gen_range(6..=255) }; }
+		v.contents.excess_address_data = x;
+		true
+	}),
+	("excess_data", 1, |v, g, n| { v.contents.excess_data = g.bytes(n); true }),
+);
+sized!(ChannelUpdate, ("excess_data", 1, |v, g, n| { v.contents.excess_data = g.bytes(n); true }));
+sized!(QueryShortChannelIds, ("short_channel_ids", 8, |v, g, n| { v.short_channel_ids = (0..n).map(|_| g.rng.gen()).collect(); true }));
+sized!(ReplyChannelRange, ("short_channel_ids", 8, |v, g, n| { v.short_channel_ids = (0..n).map(|_| g.rng.gen()).collect(); true }));
+// kinds without a variable-length field
+sized!(FundingCreated); sized!(FundingSigned); sized!(ChannelReady); sized!(Stfu); sized!(SpliceInit); sized!(SpliceAck);
+sized!(SpliceLocked); sized!(TxRemoveInput); sized!(TxRemoveOutput); sized!(TxComplete); sized!(TxInitRbf); sized!(TxAckRbf);
+sized!(ClosingSigned); sized!(StartBatch); sized!(UpdateAddHTLC); sized!(UpdateFulfillHTLC); sized!(UpdateFailMalformedHTLC);
+sized!(UpdateFee); sized!(ChannelReestablish); sized!(AnnouncementSignatures); sized!(ReplyShortChannelIdsEnd);
+sized!(QueryChannelRange); sized!(GossipTimestampFilter);
+
+// ------------------------------------------------------------------------------------------
 // abstract messages (spec/Wire.tla) and their concretisation
 
 #[derive(Clone, Debug)]
@@ -1202,6 +1379,37 @@ struct AMsg {
 	inner: String,
 	recs: Vec<ARec>,
 	tail: String,
+	size: ASize,
+}
+/// size class of one variable-length field (SizeClass of spec/Wire.tla)
+#[derive(Clone, Debug, PartialEq)]
+struct ASize {
+	at: String,
+	bnd: u64,
+	pos: String,
+}
+impl ASize {
+	fn none() -> ASize {
+		ASize { at: "none".into(), bnd: 0, pos: "none".into() }
+	}
+	fn is_none(&self) -> bool {
+		self.pos == "none"
+	}
+	/// SizeN of spec/Wire.tla for the determinate classes
+	fn n(&self) -> Option<usize> {
+		let b = self.bnd as usize;
+		match self.pos.as_str() {
+			"zero" => Some(0),
+			"one" => Some(1),
+			"bm1" => Some(b - 1),
+			"b" => Some(b),
+			"bp1" => Some(b + 1),
+			"2bm1" => Some(2 * b - 1),
+			"2b" => Some(2 * b),
+			"2bp1" => Some(2 * b + 1),
+			_ => None,
+		}
+	}
 }
 impl ARec {
 	fn clean(t: i64) -> ARec {
@@ -1210,7 +1418,7 @@ impl ARec {
 }
 impl AMsg {
 	fn base(tlvkind: bool, nk: usize) -> AMsg {
-		AMsg { opaque: false, tlvkind, nk, tid: "known".into(), fixed: "complete".into(), inner: "none".into(), recs: vec![], tail: "none".into() }
+		AMsg { opaque: false, tlvkind, nk, tid: "known".into(), fixed: "complete".into(), inner: "none".into(), recs: vec![], tail: "none".into(), size: ASize::none() }
 	}
 	fn opaque() -> AMsg {
 		let mut m = AMsg::base(false, 0);
@@ -1220,7 +1428,7 @@ impl AMsg {
 	fn json(&self) -> Value {
 		json!({"opaque": self.opaque, "tlvkind": self.tlvkind, "nk": self.nk, "tid": self.tid, "fixed": self.fixed, "inner": self.inner,
 			"recs": self.recs.iter().map(|r| json!({"t": r.t, "enc": r.enc, "fit": r.fit, "val": r.val})).collect::<Vec<_>>(),
-			"tail": self.tail})
+			"tail": self.tail, "size": {"at": self.size.at, "bnd": self.size.bnd, "pos": self.size.pos}})
 	}
 	fn from_json(v: &Value) -> AMsg {
 		AMsg {
@@ -1237,6 +1445,14 @@ impl AMsg {
 				val: r["val"].as_str().unwrap().into(),
 			}).collect(),
 			tail: v["tail"].as_str().unwrap().into(),
+			size: match v.get("size") {
+				Some(z) if z.is_object() => ASize {
+					at: z["at"].as_str().unwrap().into(),
+					bnd: z["bnd"].as_u64().unwrap(),
+					pos: z["pos"].as_str().unwrap().into(),
+				},
+				_ => ASize::none(),
+			},
 		}
 	}
 }
@@ -1459,6 +1675,10 @@ struct Out {
 	by_obs: std::collections::BTreeMap<String, usize>,
 	panics: usize,
 	skipped: usize,
+	/// measured (n, unit, total) of the sized field of the next record (size family only)
+	sz: (usize, usize, usize),
+	size_skipped: usize,
+	peer_failures: usize,
 }
 impl Out {
 	fn emit(&mut self, kind: &str, level: &str, src: &str, m: &AMsg, obs: &Obs, exp: bool, bytes: &[u8], info: Value) {
@@ -1479,7 +1699,8 @@ impl Out {
 		}
 		let ev = if obs.class == "panic" { "panic" } else { "case" };
 		self.tw.emit(json!({"run": self.run, "ev": ev, "kind": kind, "level": level, "src": src, "m": m.json(),
-			"obs": obs.class, "exp": exp, "eq": obs.eq, "rt": obs.rt, "over": obs.over, "cexp": cexp, "canon": obs.canon}));
+			"obs": obs.class, "exp": exp, "eq": obs.eq, "rt": obs.rt, "over": obs.over, "cexp": cexp, "canon": obs.canon,
+			"n": self.sz.0, "unit": self.sz.1, "total": self.sz.2}));
 		let full = self.only.is_some() || bytes.len() <= 160;
 		self.dw.emit(json!({"run": self.run, "kind": kind, "level": level, "src": src, "err": obs.err, "len": bytes.len(),
 			"consumed": obs.consumed, "hex": if full { hex(bytes) } else { format!("{}...", hex(&bytes[..160])) }, "info": info}));
@@ -1733,7 +1954,7 @@ fn fam_tlc(k: &dyn Kind, ki: usize, ctxs: &[Ctx], cases: &[(usize, AMsg)], accep
 	let mut three: Vec<&(usize, AMsg)> = Vec::new();
 	for c in cases {
 		let m = &c.1;
-		if m.tid != "known" || m.tlvkind != k.tlv() || m.nk != nk || m.inner != "none" {
+		if m.tid != "known" || m.tlvkind != k.tlv() || m.nk != nk || m.inner != "none" || !m.size.is_none() {
 			continue;
 		}
 		if m.recs.len() >= 3 {
@@ -1832,6 +2053,182 @@ fn fam_tlc(k: &dyn Kind, ki: usize, ctxs: &[Ctx], cases: &[(usize, AMsg)], accep
 	}
 }
 
+fn same_recs(a: &[ARec], b: &[ARec]) -> bool {
+	a.len() == b.len() && a.iter().zip(b).all(|(x, y)| x.t == y.t && x.enc == y.enc && x.fit == y.fit && x.val == y.val)
+}
+
+/// number of elements for a size class that fixes it / leaves it open ("rand")
+fn size_n(sz: &ASize, g: &mut Gen) -> Option<usize> {
+	match sz.pos.as_str() {
+		"rand" => Some(2f64.powf(g.rng.gen_range(1.0..16.0)) as usize),
+		_ => sz.n(),
+	}
+}
+
+/// The size classes TLC enumerated, applied to every variable-length field of one kind (the value
+/// is built with the library's own types, encoded with its own encoder) and to the value of an
+/// unknown odd TLV record after the known ones.
+fn fam_size(k: &dyn Kind, ki: usize, x: usize, c: &Ctx, cases: &[(usize, AMsg)], seed: u64, pools: &Rc<Pools>, out: &mut Out) {
+	const MAX_PAYLOAD: usize = 65535 - 2;
+	let nk = k.nk();
+	let all = (1u32 << nk) - 1;
+	let fields = c.inst.sized_fields();
+	for (ci, m) in cases {
+		if m.size.is_none() || m.tid != "known" || m.tlvkind != k.tlv() || m.nk != nk {
+			continue;
+		}
+		// the shape the model gives a sized message: complete, all known TLVs present (+ one
+		// unknown odd record after them)
+		let mut want = present_recs(all, nk);
+		let odd = m.size.at == "odd_tlv";
+		if odd {
+			want.push(ARec::clean(3 * 2 * nk as i64 + 2));
+		}
+		if !same_recs(&m.recs, &want) || m.fixed != "complete" || m.tail != "none" || m.inner != "none" || (odd && c.known.is_none()) {
+			out.size_skipped += 1;
+			continue;
+		}
+		let targets: Vec<(usize, &'static str, usize)> = if odd {
+			vec![(usize::MAX, "value of an unknown odd TLV", 1)]
+		} else {
+			fields.iter().enumerate().map(|(i, (n, u))| (i, *n, *u)).collect()
+		};
+		let reps = if m.size.pos == "rand" { 3 } else { 1 };
+		for (fi, fname, unit) in targets {
+			for rep in 0..reps {
+				let mut g = Gen::new(pools, seed, &[ki as u64, *ci as u64, fi as u64, rep as u64, x as u64, 23]);
+				let odd_t: u64 = {
+					let lo = c.known.as_ref().and_then(|kn| kn.last().map(|x| x.0 + 1)).unwrap_or(0);
+					let t = match g.rng.gen_range(0..4) { 0 => lo.max(0xFC), 1 => lo.max(0xFFFE), 2 => lo.max(1u64 << 33), _ => lo };
+					t | 1
+				};
+				let build_raw = |n: usize, g: &mut Gen| -> Option<(Option<Box<dyn Inst>>, Vec<u8>)> {
+					// n elements of `unit` bytes cannot be part of a message (Wire.tla: n * unit + 2 <= total <= MaxMsg)
+					if n.saturating_mul(unit) > MAX_PAYLOAD {
+						return None;
+					}
+					if odd {
+						let mut b = c.inst.enc(all);
+						b.extend_from_slice(&bigsize(odd_t));
+						b.extend_from_slice(&bigsize(n as u64));
+						b.extend_from_slice(&g.bytes(n));
+						Some((None, b))
+					} else {
+						let i2 = c.inst.with_size(fi, n, g)?;
+						let b = i2.enc(all);
+						Some((Some(i2), b))
+					}
+				};
+				// a panic of the library's encoder on a value that could fit is data
+				let mut enc_panic: Option<(usize, String)> = None;
+				let mut build = |n: usize, g: &mut Gen| -> Option<(Option<Box<dyn Inst>>, Vec<u8>)> {
+					match catch_unwind(AssertUnwindSafe(|| build_raw(n, g))) {
+						Ok(r) => r,
+						Err(_) => {
+							enc_panic = Some((n, LAST_PANIC.with(|p| p.borrow().clone())));
+							None
+						},
+					}
+				};
+				let built = if m.size.pos == "max" {
+					// the largest n with which the message still fits: estimate from a small feasible n, then
+					// step down while a widened length prefix pushes it over
+					let mut found = None;
+					for n0 in [0usize, 1, 64, 100, 400] {
+						if let Some((_, b0)) = build(n0, &mut g) {
+							if b0.len() > MAX_PAYLOAD {
+								break;
+							}
+							let mut n = n0 + (MAX_PAYLOAD - b0.len()) / unit;
+							for _ in 0..24 {
+								match build(n, &mut g) {
+									None => break,
+									Some((i2, b)) => {
+										if b.len() <= MAX_PAYLOAD {
+											found = Some((n, i2, b));
+											break;
+										}
+										let excess = b.len() - MAX_PAYLOAD;
+										n = n.saturating_sub((excess + unit - 1) / unit);
+									},
+								}
+							}
+							break;
+						}
+					}
+					found
+				} else {
+					size_n(&m.size, &mut g).and_then(|n| build(n, &mut g).map(|(i2, b)| (n, i2, b)))
+				};
+				if let Some((n, msg)) = enc_panic {
+					let o = Obs { class: "panic", err: format!("encode panic: {}", msg), eq: false, rt: false, consumed: 0, over: false, canon: false };
+					out.sz = (n, unit, 0);
+					out.emit(k.name(), "codec", "size", m, &o, true, &[], json!({"ctx": {"tlc_case": ci, "var": c.var}, "field": fname, "n": n, "unit": unit}));
+					out.sz = (0, 1, 0);
+					continue;
+				}
+				let (n, i2, bytes) = match built {
+					Some(x) if x.2.len() <= MAX_PAYLOAD => x,
+					_ => {
+						// the field's type cannot hold that many elements / the message would not be a message
+						out.size_skipped += 1;
+						continue;
+					},
+				};
+				let inst: &dyn Inst = match &i2 { Some(b) => b.as_ref(), None => c.inst.as_ref() };
+				let info = json!({"ctx": {"tlc_case": ci, "var": c.var}, "field": fname, "n": n, "unit": unit});
+				out.sz = (n, unit, bytes.len() + 2);
+				let o = inst.observe(&bytes, &Expect::Mask(all));
+				out.emit(k.name(), "codec", "size", m, &o, true, &bytes, info.clone());
+				if k.wire() {
+					let o = inst.observe_wire(&bytes, &Expect::Mask(all));
+					out.emit(k.name(), "wire", "size", m, &o, true, &bytes, info);
+				}
+				out.sz = (0, 1, 0);
+			}
+		}
+	}
+}
+
+/// size classes of the payload of a message of an unknown type: wire::read and the PeerManager pair
+fn fam_size_typeid(known_ids: &[u16], cases: &[(usize, AMsg)], seed: u64, pools: &Rc<Pools>, out: &mut Out) {
+	for (ci, m) in cases {
+		if m.size.is_none() || m.tid == "known" || m.size.at != "field" {
+			continue;
+		}
+		let mut g = Gen::new(pools, seed, &[*ci as u64, 29]);
+		let tid: u16 = loop {
+			let base: u16 = if m.tid.starts_with("custom") { g.rng.gen_range(32768..=65535) } else { g.rng.gen_range(0..32768) };
+			let t = if m.tid.ends_with("even") { base & !1 } else { base | 1 };
+			if !known_ids.contains(&t) {
+				break t;
+			}
+		};
+		let n = if m.size.pos == "max" { 65535 - 2 } else { match size_n(&m.size, &mut g) { Some(n) => n, None => continue } };
+		if n + 2 > 65535 {
+			out.size_skipped += 1;
+			continue;
+		}
+		let payload = g.bytes(n);
+		let mut full = tid.to_be_bytes().to_vec();
+		full.extend_from_slice(&payload);
+		out.sz = (n, 1, full.len());
+		let o = wire_obs(&full);
+		out.emit("-", "wire", "size", m, &o, false, &full, json!({"ctx": {"tlc_case": ci}, "type": tid, "n": n}));
+		let (class_obs, diag) = peer::inject(tid, &payload);
+		if class_obs == "tool" {
+			// the loop-back pair could not be set up: no observation (reported as a tool error by the check)
+			eprintln!("peer harness failure: {}", diag);
+			out.peer_failures += 1;
+			out.sz = (0, 1, 0);
+			continue;
+		}
+		let o = Obs { class: class_obs, err: diag, eq: false, rt: false, consumed: 0, over: false, canon: false };
+		out.emit("-", "peer", "size", m, &o, false, &full, json!({"ctx": {"tlc_case": ci}, "type": tid, "n": n}));
+		out.sz = (0, 1, 0);
+	}
+}
+
 fn wire_obs(full: &[u8]) -> Obs {
 	let r = catch_unwind(AssertUnwindSafe(|| lightning::verif::codec::wire_read(full)));
 	let mut o = Obs { class: "reject", err: String::new(), eq: false, rt: false, consumed: 0, over: false, canon: false };
@@ -1866,7 +2263,7 @@ fn wire_obs(full: &[u8]) -> Obs {
 /// message-type classes at the wire::read level
 fn fam_typeid(kinds: &[Box<dyn Kind>], known_ids: &[u16], cases: &[(usize, AMsg)], n: usize, seed: u64, pools: &Rc<Pools>, out: &mut Out) {
 	for (ci, m) in cases {
-		if m.tid == "known" || m.inner != "none" {
+		if m.tid == "known" || m.inner != "none" || !m.size.is_none() {
 			continue;
 		}
 		for i in 0..n {
@@ -1943,6 +2340,9 @@ fn main() {
 			"?".to_string()
 		};
 		let loc = info.location().map(|l| format!("{}:{}", l.file(), l.line())).unwrap_or_default();
+		if std::env::var("WIRECODEC_PANICS").is_ok() {
+			eprintln!("panic: {} @ {}", msg, loc);
+		}
 		LAST_PANIC.with(|p| *p.borrow_mut() = format!("{} @ {}", msg, loc));
 	}));
 	let args: Vec<String> = std::env::args().collect();
@@ -1979,12 +2379,17 @@ fn main() {
 		by_obs: Default::default(),
 		panics: 0,
 		skipped: 0,
+		sz: (0, 1, 0),
+		size_skipped: 0,
+		peer_failures: 0,
 	};
 	let mut known_ids: Vec<u16> = Vec::new();
 	let mut tlv_kinds_bound = 0usize;
 	let mut kinds_built = 0usize;
 
 	for (ki, k) in kinds.iter().enumerate() {
+		// a panic that escapes the per-case guards (the library's encoder on a built value) is data too
+		let r = catch_unwind(AssertUnwindSafe(|| {
 		let mut ctxs: Vec<Ctx> = Vec::new();
 		for s in 0..seeds {
 			for var in 0..NV {
@@ -2018,7 +2423,19 @@ fn main() {
 			}
 		}
 		fam_tlc(k.as_ref(), ki, &ctxs, &cases, &accepts, tlv3, seed, &pools, &mut out);
+		// size classes: on the value with small fields everywhere else
+		for (x, c) in ctxs.iter().filter(|c| c.var == 1).enumerate() {
+			fam_size(k.as_ref(), ki, x, c, &cases, seed, &pools, &mut out);
+		}
+		}));
+		if r.is_err() {
+			let m = AMsg::base(k.tlv(), k.nk());
+			let o = Obs { class: "panic", err: format!("encode panic: {}", LAST_PANIC.with(|p| p.borrow().clone())), eq: false, rt: false, consumed: 0, over: false, canon: false };
+			out.sz = (0, 1, 0);
+			out.emit(k.name(), "codec", "construct", &m, &o, false, &[], json!({"ctx": {"seed": seed}}));
+		}
 	}
+	fam_size_typeid(&known_ids, &cases, seed, &pools, &mut out);
 	fam_typeid(&kinds, &known_ids, &cases, 12, seed, &pools, &mut out);
 	fam_random(&kinds, &known_ids, random, seed, &pools, &mut out);
 	fam_peer(&kinds, &known_ids, peer, seed, &pools, &mut out);
@@ -2028,7 +2445,8 @@ fn main() {
 		"{}",
 		json!({"cases": out.run, "kinds": kinds.len(), "kinds_built": kinds_built, "tlv_kinds": kinds.iter().filter(|k| k.tlv()).count(),
 			"tlv_kinds_bound": tlv_kinds_bound, "wire_kinds": known_ids.len(), "by_src": out.by_src, "by_obs": out.by_obs,
-			"panics": out.panics, "unconcretizable": out.skipped, "tlc_cases": cases.len()})
+			"panics": out.panics, "unconcretizable": out.skipped, "size_unconcretizable": out.size_skipped, "peer_failures": out.peer_failures,
+			"tlc_cases": cases.len()})
 	);
 }
 
@@ -2225,7 +2643,8 @@ fn fam_peer(kinds: &[Box<dyn Kind>], known_ids: &[u16], n: usize, seed: u64, poo
 			let (class_obs, diag) = peer::inject(tid, &payload);
 			if class_obs == "tool" {
 				eprintln!("peer harness failure: {}", diag);
-				std::process::exit(3);
+				out.peer_failures += 1;
+				continue;
 			}
 			let mut m = AMsg::base(false, 0);
 			m.tid = class.to_string();
